@@ -335,11 +335,7 @@ func readerOps(c cfg, thorough bool) []rop {
 	S := c.OtherPlain()
 	lens := []int{0, 1, 2, S - 1, S, S + 1, 2 * S}
 	if thorough {
-		lens = nil
-		for n := 0; n <= S+2; n++ {
-			lens = append(lens, n)
-		}
-		lens = append(lens, 2*S, 3*S+7)
+		lens = []int{0, 1, 2, 3, S / 2, S - 1, S, S + 1, S + 2, 2*S - 1, 2 * S, 2*S + 1, 3*S + 7}
 	}
 	var ops []rop
 	for _, n := range lens {
@@ -487,7 +483,9 @@ func readerSection(x *h.X) {
 	ci := x.Choose("config", len(cs))
 	c := cs[ci]
 	x.Label(c.String())
-	ls := lengths(c, x.Thorough())
+	// thorough: EVERY plaintext length for the first 14 configurations (both schemes, all offsets, 1-byte first
+	// segment) and the boundary set for the others
+	ls := lengths(c, x.Thorough() && ci < 14)
 	li := x.Choose("plaintext-length", len(ls))
 	L := ls[li]
 	x.Label(fmt.Sprint(L))
